@@ -104,6 +104,7 @@ class Arr:
         self.is_list = is_list
         self.parts = parts          # 1-D concatenation of unlike blocks
         self.random = False         # holds independent random draws
+        self.const = None           # every element equals this constant
 
     @property
     def ndim(self):
@@ -268,6 +269,39 @@ class ShapeLifter(Lifter):
         for g in n.generators:
             it = g.iter
             ax = None
+            # filters: only membership tests on a statically empty
+            # collection are decided (`if k not in special` with no special
+            # entries keeps everything); any other filter is unknown
+            consts = {}
+            if isinstance(it, ast.Call) and U(it.func) == 'zip' and \
+                    it.args and isinstance(g.target, ast.Tuple) and len(
+                        g.target.elts) == len(it.args):
+                # elements of an all-constant array are that constant
+                for tg, a_ in zip(g.target.elts, it.args):
+                    v_ = self.ev(a_, env, fn, depth, owner)
+                    if isinstance(tg, ast.Name) and isinstance(v_, Arr) \
+                            and v_.const is not None:
+                        consts[tg.id] = bool(v_.const)
+            for cond in g.ifs:
+                ok = False
+                if isinstance(cond, ast.Compare) and len(cond.ops) == 1 \
+                        and isinstance(cond.ops[0], ast.NotIn):
+                    c = self.ev(cond.comparators[0], env, fn, depth, owner)
+                    if isinstance(c, Arr) and eq(c.total(), 0):
+                        ok = True
+                if isinstance(cond, ast.Name) and consts.get(cond.id) is True:
+                    ok = True
+                if isinstance(cond, ast.UnaryOp) and isinstance(
+                        cond.op, ast.Not) and isinstance(
+                        cond.operand, ast.Name) and consts.get(
+                        cond.operand.id) is False:
+                    ok = True
+                if not ok:
+                    return TOP
+            if isinstance(it, ast.Call) and U(it.func) in ('enumerate',
+                                                           'zip') \
+                    and it.args:
+                it = it.args[0]
             if isinstance(it, ast.Call) and U(it.func) == 'range' \
                     and len(it.args) == 1:
                 sz = self.as_int(self.ev(it.args[0], env, fn, depth, owner))
@@ -395,6 +429,11 @@ class ShapeLifter(Lifter):
 
     def _assign(self, t, val, env, fn, depth, owner):
         if isinstance(t, ast.Subscript) and isinstance(t.value, ast.Name):
+            cur0 = env.get(t.value.id)
+            if isinstance(cur0, Arr) and cur0.const is not None:
+                # an element store ends "all elements equal"
+                new0 = Arr(cur0.axes, cur0.is_list, cur0.parts)
+                env[t.value.id] = new0
             tgt = self.subscript(t, env, fn, depth, owner)
             if isinstance(tgt, Arr) and isinstance(val, Arr):
                 if val.random and (val.ndim < tgt.ndim or any(
@@ -712,14 +751,19 @@ class ShapeLifter(Lifter):
                     sh = ev(k.value)
             if sh is None and n.args:
                 sh = ev(n.args[0])
+            cst = {'np.zeros': 0, 'np.ones': 1}.get(f)
             if isinstance(sh, (Tup, tuple)):
                 dims = [self.as_int(x) for x in sh]
                 if all(d is not None for d in dims):
-                    return Arr([Ax(d) for d in dims])
+                    a_ = Arr([Ax(d) for d in dims])
+                    a_.const = cst
+                    return a_
                 return TOP
             d = self.as_int(sh)
             if d is not None:
-                return Arr([Ax(d)])
+                a_ = Arr([Ax(d)])
+                a_.const = cst
+                return a_
             return TOP
         if f == 'len' and n.args:
             v = ev(n.args[0])
@@ -787,6 +831,8 @@ class ShapeLifter(Lifter):
             return TOP
         if f == 'range':
             return TOP
+        if f == 'set' and not n.args:
+            return Arr((Ax(0, ()),), is_list=True)
         if f in ('np.repeat', 'np.tile') and len(n.args) == 2 \
                 and not n.keywords:
             # 1-D repeat: each element k times (src > k); tile: the whole
